@@ -3,7 +3,7 @@ import ast
 import re
 
 from ..model import UNKNOWN, ClassRef, FuncRef, norm, walk_no_nested
-from ..rules import canon_guard
+from ..rules import canon_guard, canon_text, equiv, equiv_folded
 from .. import common, spec, flow, shape
 
 SA = 'bitcoin.segwit_addr.'
@@ -171,7 +171,7 @@ def rule_convertbits(ctx, repo):
         r.violated('no-pad-arm', fi.site, 'no rejecting `elif` for pad=False')
         return
     ds = [canon_guard(d, repo, fi.module) for d in disjuncts(arm.test)]
-    r.check('bits > frombits - 1' in ds or 'bits >= frombits' in ds, 'padding-bits', common.site_of(fi, arm), 'frombits or more left-over bits rejected',
+    r.check(canon_text('bits >= frombits') in ds, 'padding-bits', common.site_of(fi, arm), 'frombits or more left-over bits rejected',
             'left-over bits rule is %s; BIP173: reject when bits >= frombits (five or more padding bits)' % ds)
     r.check('acc << tobits - bits & maxv' in ds, 'padding-zero', common.site_of(fi, arm), 'non-zero padding rejected', 'non-zero padding rule missing: %s' % ds)
     defs = {norm(n.targets[0]): norm(n.value) for n in walk_no_nested(fi.node) if isinstance(n, ast.Assign)}
